@@ -134,6 +134,10 @@ def _from(alg, keys, vals):
 
 
 def rand_index(rng, shape):
+    if rng.random() < 0.15:
+        # a list index selects several entries of the first trailing axis (numpy fancy indexing)
+        n = shape[0]
+        return sorted(rng.sample(range(n), rng.randint(1, n)))
     idx = []
     for n in shape[:rng.randint(1, len(shape))]:
         r = rng.random()
